@@ -280,7 +280,10 @@ pub fn flate_decode(data: &[u8], params: &LZWFlateParams) -> Result<Vec<u8>> {
     let predictor = params.predictor as usize;
     let n_components = params.n_components as usize;
     let columns = params.columns as usize;
-    let stride = columns * n_components;
+    let bits_per_component = params.bits_per_component as usize;
+    // bytes per row, and bytes per complete pixel (rounded up, as in the PNG specification)
+    let stride = (columns * n_components * bits_per_component + 7) / 8;
+    let bpp = (n_components * bits_per_component + 7) / 8;
 
 
     // First flate decode
@@ -323,7 +326,7 @@ pub fn flate_decode(data: &[u8], params: &LZWFlateParams) -> Result<Vec<u8>> {
                 let (prev, curr) = out.split_at_mut(out_off);
                 (&prev[last_out_off ..], &mut curr[.. stride])
             };
-            unfilter(predictor, n_components, prev_row, row_in, row_out);
+            unfilter(predictor, bpp, prev_row, row_in, row_out);
             
             last_out_off = out_off;
             
